@@ -4,7 +4,7 @@ import itertools
 
 import boot  # noqa: F401
 from core import corr, oracle
-from yowsup.layers import YowLayer, YowLayerEvent, YowParallelLayer
+from yowsup.layers import EventCallback, YowLayer, YowLayerEvent, YowParallelLayer
 from yowsup.stacks import YowStack, YowStackBuilder
 import yowsup.stacks.yowstack as ys_mod
 
@@ -73,6 +73,47 @@ class RecLayer(YowLayer):
         return self.CONS == n
 
 
+class CbLayer(RecLayer):
+    """the same recording layer, but its event handling goes through the framework's own registration: handler methods marked with
+    @EventCallback (added per class in _mkclasses); YowLayer.onEvent looks the handler up and its result decides whether the event goes on"""
+    def onEvent(self, ev):
+        LOG.append("e%d:%d" % (self.LID, int(ev.getName())))
+        return YowLayer.onEvent(self, ev)
+
+
+def _handler(n):
+    @EventCallback(str(n))
+    def h(self, ev):
+        return self.CONS == n
+    h.__name__ = "on_event_%d" % n
+    return h
+
+
+def handled(case, c):
+    """events the class with model id c has a handler for: its own and its ancestors' (callbacks style only)"""
+    out = set()
+    seen = set()
+    while c is not None and c not in seen:
+        seen.add(c)
+        out |= set((case.get("handles") or {}).get(str(c), []))
+        c = (case.get("derive") or {}).get(str(c))
+    return out
+
+
+def effective(case):
+    """the case as the model and the spec functions see it: with callbacks-style layers a layer consumes event n only if its class (or an
+    ancestor) declares a handler for n"""
+    if case.get("style") != "callbacks":
+        return case
+    layers = {}
+    for k, sp in case["layers"].items():
+        sp = dict(sp)
+        if sp["cons"] is not None and sp["cons"] not in handled(case, sp["cls"]):
+            sp["cons"] = None
+        layers[k] = sp
+    return dict(case, layers=layers)
+
+
 def setup(chk):
     ys_mod.time = _FakeTime()
 
@@ -101,8 +142,13 @@ def _rand_case(r, maxdepth=6, maxgroup=4):
         for c in range(1, ncls):
             if r.random() < 0.6:
                 derive[str(c)] = r.randrange(c)
-    return {"slots": slots, "layers": layers, "form": form, "reversed": r.choice([0, 1]),
+    case = {"slots": slots, "layers": layers, "form": form, "reversed": r.choice([0, 1]),
             "builder": r.choice([0, 0, 1]), "pops": r.choice([0, 1, 2]), "derive": derive}
+    if r.random() < 0.4:
+        # event handling through @EventCallback handlers: each class declares handlers for some of the events, subclasses add their own
+        case["style"] = "callbacks"
+        case["handles"] = dict((str(c), sorted(r.sample([1, 2, 3, 9], r.randint(1, 3)))) for c in range(ncls))
+    return case
 
 
 def cases(chk):
@@ -112,6 +158,15 @@ def cases(chk):
                     "form": ["class", "parallel", "inst"], "reversed": 0, "builder": 0, "pops": 0}
     yield "shape", {"slots": [1, [2, 3], 4], "layers": {str(i): {"cls": 1, "tx": "pass", "rx": "pass", "cons": 2 if i == 2 else None, "iface": None if i == 2 else 100 + i} for i in range(1, 5)},
                     "form": ["class", "tuple", "class"], "reversed": 1, "builder": 0, "pops": 0}
+    # handlers registered with @EventCallback, a subclass adding handlers its base lacks, the base instantiated first / last
+    for rev in (0, 1):
+        yield "shape", {"slots": [1, 2, [3, 4], 5], "layers": {"1": {"cls": 0, "tx": "pass", "rx": "pass", "cons": None, "iface": 101},
+                                                                "2": {"cls": 1, "tx": "pass", "rx": "pass", "cons": 2, "iface": 102},
+                                                                "3": {"cls": 0, "tx": "pass", "rx": "pass", "cons": 9, "iface": 103},
+                                                                "4": {"cls": 2, "tx": "pass", "rx": "pass", "cons": 3, "iface": 104},
+                                                                "5": {"cls": 1, "tx": "pass", "rx": "pass", "cons": 1, "iface": 105}},
+                        "form": ["class", "class", "parallel", "inst"], "reversed": rev, "builder": 0, "pops": 0,
+                        "derive": {"1": 0, "2": 1}, "style": "callbacks", "handles": {"0": [1, 9], "1": [2], "2": [3]}}
     for _ in range(chk.scale(1200, 12000)):
         if not chk.time_left():
             break
@@ -139,13 +194,23 @@ def nontrivial(stream, case):
 def _mkclasses(case):
     """one Python class per MODEL class id, shared by every layer of that class (the stack finds interfaces by exact class); case["derive"]
     makes some of them subclasses of others — a subclass is a different class, a lookup for the base must not stop at it"""
-    ids = sorted(set(sp["cls"] for sp in case["layers"].values()))
     derive = case.get("derive") or {}
+    ids = set(sp["cls"] for sp in case["layers"].values())
+    for c in list(ids):                 # ... and their ancestors, whether or not a layer of the stack is of that class
+        while derive.get(str(c)) is not None and derive[str(c)] not in ids:
+            c = derive[str(c)]
+            ids.add(c)
+    ids = sorted(ids)
     by_cls = {}
+    cbs = case.get("style") == "callbacks"
     for c in ids:
         parent = derive.get(str(c))
-        base = by_cls[parent] if parent is not None and parent in by_cls else RecLayer
-        by_cls[c] = type("K%d" % c, (base,), {"CLS": c})
+        base = by_cls[parent] if parent is not None and parent in by_cls else (CbLayer if cbs else RecLayer)
+        body = {"CLS": c}
+        if cbs:
+            for n in (case.get("handles") or {}).get(str(c), []):
+                body["on_event_%d" % n] = _handler(n)
+        by_cls[c] = type("K%d" % c, (base,), body)
     return by_cls
 
 
@@ -257,6 +322,8 @@ def run_case(chk, stream, case):
     fails = []
     d = chk.driver
     d.ask("stack reset")
+    real_case = case
+    case = effective(case)          # (build_real gets the case as given; the model and the spec get the consumption that the handlers declared allow)
     for k, sp in case["layers"].items():
         d.ask("stack layer %s %d %s %s %s %s" % (k, sp["cls"], sp["tx"], sp["rx"],
                                                 "-" if sp["cons"] is None else sp["cons"], "-" if sp["iface"] is None else sp["iface"]))
@@ -265,7 +332,7 @@ def run_case(chk, stream, case):
     d.ask("stack build %d %s" % (case["reversed"], " ".join(given)))
     drain()
     try:
-        stack, classes = build_real(case)
+        stack, classes = build_real(real_case)
     except Exception as e:
         return [oracle("C18:assembly-raises:" + type(e).__name__, "shape %s (form %s, reversed=%s, builder=%s): %s"
                        % (case["slots"], case["form"], case["reversed"], case["builder"], e))]
@@ -275,6 +342,7 @@ def run_case(chk, stream, case):
             "reversed=%d" % case["reversed"], "builder=%d" % (1 if case["builder"] and not case["reversed"] else 0))
     for f in set(case["form"]):
         chk.hit("form:" + f)
+    chk.hit("events:" + case.get("style", "override"))
 
     def compare(op, impl, model, spec=None, sig=None):
         if impl != model:
